@@ -6,7 +6,7 @@ Copyright 2020, 2021 William W. Kimball, Jr. MBA MSIS
 """
 import sys
 from os.path import basename
-from typing import Any, Dict, List, Set, Tuple, Union
+from typing import Any, Dict, List, Optional, Set, Tuple, Union
 import json
 from io import StringIO
 from pathlib import Path
@@ -626,10 +626,34 @@ class Merger:
                 # re-definitions.
                 Anchors.replace_anchor(self.data, lhs_anchor, rhs_anchor)
 
+    @staticmethod
+    def _store_merged_node(
+        lhs: Any, merged_data: Any, target: Optional[NodeCoords]
+    ) -> None:
+        """
+        Store a merge result which is not the merge target itself.
+
+        Merge modes which replace the target (RIGHT) or rebuild it yield a new
+        node; at a --mergeat location other than the document root, that node
+        must take the target's place within its parent.
+
+        Parameters:
+        1. lhs (Any) The merge target
+        2. merged_data (Any) The merge result
+        3. target (Optional[NodeCoords]) Coordinates of the merge target
+
+        Returns:  N/A
+        """
+        if (target is None or merged_data is None or merged_data is lhs
+                or not isinstance(
+                    target.parent, (CommentedMap, CommentedSeq))):
+            return
+        target.parent[target.parentref] = merged_data
+
     def _insert_dict(
         self, insert_at: YAMLPath,
         lhs: Union[CommentedMap, CommentedSeq, CommentedSet],
-        rhs: CommentedMap
+        rhs: CommentedMap, target: Optional[NodeCoords] = None
     ) -> bool:
         """Insert an RHS dict merge result into the LHS document."""
         merge_performed = False
@@ -687,12 +711,14 @@ class Merger:
 
         if insert_at.is_root:
             self.data = merged_data
+        else:
+            Merger._store_merged_node(lhs, merged_data, target)
         return merge_performed
 
     def _insert_list(
         self, insert_at: YAMLPath,
         lhs: Union[CommentedMap, CommentedSeq, CommentedSet],
-        rhs: CommentedSeq
+        rhs: CommentedSeq, target: Optional[NodeCoords] = None
     ) -> bool:
         """Insert an RHS list merge result into the LHS document."""
         merge_performed = False
@@ -728,12 +754,14 @@ class Merger:
 
         if insert_at.is_root:
             self.data = merged_data
+        else:
+            Merger._store_merged_node(lhs, merged_data, target)
         return merge_performed
 
     def _insert_set(
         self, insert_at: YAMLPath,
         lhs: Union[CommentedMap, CommentedSeq, CommentedSet],
-        rhs: CommentedSet
+        rhs: CommentedSet, target: Optional[NodeCoords] = None
     ) -> bool:
         """Insert an RHS list merge result into the LHS document."""
         merge_performed = False
@@ -773,6 +801,8 @@ class Merger:
 
         if insert_at.is_root:
             self.data = merged_data
+        else:
+            Merger._store_merged_node(lhs, merged_data, target)
         return merge_performed
 
     def _insert_scalar(
@@ -886,15 +916,15 @@ class Merger:
                 merge_performed = True
             elif isinstance(rhs, CommentedMap):
                 merge_performed = self._insert_dict(
-                    insert_at, target_node, rhs)
+                    insert_at, target_node, rhs, node_coord)
             elif isinstance(rhs, CommentedSeq):
                 # The RHS document root is a list
                 merge_performed = self._insert_list(
-                    insert_at, target_node, rhs)
+                    insert_at, target_node, rhs, node_coord)
             elif isinstance(rhs, CommentedSet):
                 # The RHS document is a set
                 merge_performed = self._insert_set(
-                    insert_at, target_node, rhs)
+                    insert_at, target_node, rhs, node_coord)
             else:
                 # The RHS document root is a Scalar value
                 merge_performed = self._insert_scalar(
